@@ -1527,6 +1527,15 @@ func (db *DatabaseCollectionWithUser) PutExistingCurrentVersion(ctx context.Cont
 		// 2. local doc has no hlv
 		allowConflictingTombstone := opts.ForceAllowConflictingTombstone && doc.IsDeleted()
 
+		// A tombstone whose current version the stored tombstone's vector already knows is not new: it is not written
+		// again, and its (older) current version does not replace the stored one.
+		if allowConflictingTombstone && doc.HLV != nil && opts.NewDocHLV != nil {
+			if incomingCV := opts.NewDocHLV.ExtractCurrentVersionFromHLV(); incomingCV != nil && doc.HLV.DominatesSource(*incomingCV) {
+				base.DebugfCtx(ctx, base.KeyCRUD, "PutExistingCurrentVersion(%q): tombstone %#v already known to the stored tombstone", base.UD(opts.NewDoc.ID), incomingCV)
+				return nil, nil, false, nil, base.ErrUpdateCancel
+			}
+		}
+
 		// variables to keep track if there was rev tree conflict check and storing the status of the check
 		revTreeConflictChecked := false
 		revTreeConflictCheckStatus := false
